@@ -45,6 +45,19 @@ func faultSessions(tier string) []sessCfg {
 	}
 }
 
+// smallFaultSessions: the smallest committees (two parties on each side). Every "all the others" list has one entry here,
+// which is where capacity, index and address-list slips show; they get a reduced fault list.
+func smallFaultSessions() []sessCfg {
+	return []sessCfg{
+		{"eddsa-keygen", 2, 1, nil, 0, 0, "small", 0.4},
+		{"eddsa-signing", 3, 1, []int{0, 2}, 0, 0, "seeded", 0.3},
+		{"eddsa-resharing", 3, 1, []int{0, 1}, 2, 1, "seeded", 0.5},
+		{"ecdsa-keygen", 2, 1, nil, 0, 0, "small", 4},
+		{"ecdsa-signing", 3, 1, []int{0, 2}, 0, 0, "seeded", 0.8},
+		{"ecdsa-resharing", 3, 1, []int{0, 2}, 2, 1, "seeded", 5},
+	}
+}
+
 func indexChoices(fi fieldInfo, tier string) []string {
 	if !fi.Repeated {
 		return []string{""}
@@ -156,6 +169,25 @@ func c05Gen(tier string, seed int64) []core.Case {
 			}
 			k++
 		}
+	}
+	for _, sc := range smallFaultSessions() {
+		for fiI, fi := range staticFields[sc.proto] {
+			ix := ""
+			if fi.Repeated {
+				ix = "first"
+			}
+			hows := []string{"+1"}
+			if tier == "thorough" {
+				hows = []string{"+1", "random", "remove"}
+			}
+			for _, how := range hows {
+				f := faultSpec{fi.Type, fi.Field, ix, how, []string{"low", "high"}[(k+fiI)%2], false, ""}
+				id := fmt.Sprintf("small/%s/%s", sc.proto, f.String())
+				cs = append(cs, core.Case{ID: id, Class: id, Kind: "field", P: f.P(sc.P()), Cost: sc.cost})
+			}
+		}
+		id := fmt.Sprintf("small/%s/control-no-fault", sc.proto)
+		cs = append(cs, core.Case{ID: id, Class: id, Kind: "control", P: sc.P(), Cost: sc.cost})
 	}
 	return cs
 }
